@@ -143,7 +143,8 @@ def install_lock_wrapper() -> None:
 _BASE_DIR = None
 
 
-def setup_django(components: dict | None = None, extra: dict | None = None, with_components: bool = True) -> None:
+def setup_django(components: dict | None = None, extra: dict | None = None, with_components: bool = True,
+                 extra_builtins: tuple = ()) -> None:
     """Configure Django in-process. `with_components=False` gives a truly stock Django."""
     global _BASE_DIR
     import django
@@ -162,6 +163,7 @@ def setup_django(components: dict | None = None, extra: dict | None = None, with
         builtins.append("django_components.templatetags.component_tags")
         apps.append("django_components")
         middleware.append("django_components.middleware.ComponentDependencyMiddleware")
+    builtins.extend(extra_builtins)
     cfg = {
         "BASE_DIR": _BASE_DIR,
         "INSTALLED_APPS": tuple(apps),
